@@ -63,7 +63,7 @@ Definition holds_as (want : arr Z) (x : jarr) (o : outcome) : bool :=
      9   the harness produced an input outside the model's well-formedness (harness error)
      10+c  property fails outside the domain, clause c, exactly as the model predicts (known defect class)
      20+c  property fails outside the domain, clause c, but not in the way the model predicts
-   clauses: 2 NB_shape_fits_coords_dtype | 3 NB_construct_shape_type | 4 MM_optional_compressed_axes (judge_missing) *)
+   clauses: 2 NB_shape_fits_coords_dtype | 3 NB_construct_shape_type *)
 Definition classify_as (want : arr Z) (x : jarr) (wfx : bool) (clause : option Z) (m : res (arr Z)) (o : outcome) : Z :=
   if negb wfx then 9
   else if (fst o =? 100) || (fst o =? 101) then 6
@@ -84,8 +84,7 @@ Definition judge_npz (c : jarr * outcome) : Z :=
 
 (* ---- files from which members were removed (rewritten archives).  [dropped] = codes of the removed members:
    0 data 1 shape 2 fill_value 3 coords 4 indices 5 indptr 6 compressed_axes.  The property: the load raises.
-   Codes: 0 raises as the model predicts | 2 raises although the model predicts an array | 3 loads an array inside the
-   domain | 14 / 24 loads an array, clause MM_optional_compressed_axes, as / not as the model predicts *)
+   Codes: 0 raises as the model predicts | 2 raises although the model predicts an array | 3 loads an array *)
 Definition member_name (a : Z) : string :=
   if a =? 0 then s_data else if a =? 1 then s_shape else if a =? 2 then s_fill else if a =? 3 then s_coords
   else if a =? 4 then s_indices else if a =? 5 then s_indptr else s_axes.
@@ -101,7 +100,7 @@ Definition judge_missing (c : jarr * list Z * outcome) : Z :=
          let m := load_members Z (restrict Z keep ms) in
          if (fst o =? 100) || (fst o =? 101) then 6
          else match o with
-              | (0, Some _) => if mm_axes_kept Z x keep then 3 else if agrees m o then 14 else 24
+              | (0, Some _) => 3
               | _ => match m with Raise _ => 0 | Ok _ => 2 end
               end
        end.
